@@ -154,7 +154,6 @@ VERIF_TARGET(c34_txrequest, nullptr, 16, 1400,
     auto get_requestable = [&](int p, std::vector<int>* count_per_h) -> std::vector<int> {
         std::vector<std::pair<NodeId, GenTxid>> expired;
         std::vector<GenTxid> got = tracker.GetRequestable(node(p), std::chrono::microseconds{now}, &expired);
-        tracker.PostGetRequestableSanityCheck(std::chrono::microseconds{now});
         // 1. expiry
         for (int h = 0; h < m.nh; ++h) for (int q = 0; q < m.np; ++q) if (m.a[h][q].st == REQ && m.a[h][q].time == now) ++c_exp_eq;
         auto exp_model = m.expire(now);
@@ -212,6 +211,7 @@ VERIF_TARGET(c34_txrequest, nullptr, 16, 1400,
         std::vector<int> exact_h;
         for (auto& e : exact) exact_h.push_back(e.second);
         VCHECK(exact_h == advised, "c34.exact-vs-priority", "peer", p, "now", now, "advised", advised.size(), "expected by model + ComputePriority", exact_h.size());
+        tracker.PostGetRequestableSanityCheck(std::chrono::microseconds{now}); // the tracker's own time-dependent self-check, after the model comparison
         n_advised += unsigned(advised.size());
         return advised;
     };
